@@ -365,21 +365,8 @@ def linearizable(threads, results, before, init, cap, final_items):
 
 
 def in_known_class(case):
-    """Input classes of listed known findings (see known_findings.d/C26.json)."""
-    return _known_contains_class(case)
-
-
-def _known_contains_class(case):
-    # F28: an evicting __setitem__ changes _mapping twice (evicted key out, new key in); __contains__ takes no
-    # lock, so two membership tests by other threads can see the state between the two changes.
-    threads = case["threads"]
-    for t, ops in enumerate(threads):
-        for op in ops:
-            if op[0] != "set":
-                continue
-            ins = [(u, o) for u, ops2 in enumerate(threads) if u != t for o in ops2 if o[0] == "in"]
-            if any(o[1] == op[1] for _, o in ins) and any(o[1] != op[1] for _, o in ins):
-                return True
+    """Input classes of listed known findings; none at present (F28, the unlocked __contains__, was fixed in
+    /repo by fe93702 - its class is generated and judged, its minimal schedule is replays/C26/f28_*.json)."""
     return False
 
 
